@@ -84,7 +84,7 @@ def path(ctx, cfg):
         extras = mc.fork_extras(ctx, cfg)
     net, used = mc.build_network(cfg, placement, extras)
     before = mc.snapshot(net.G)
-    target, tabs = mc.make_target(ctx, net, used, "full")
+    target, tabs = mc.make_target(ctx, net, used, "full", reverse_dict=len(used) > 1 and cfg.get("template") in ("mixed", "twotopo"))
     if cfg["kind"] == "defaults":
         obj = ctx.guard("defaults", MarkovChainMonteCarloRewiring, {TN.NETWORK: net, TN.EJKS: target})
         ne = net.G.number_of_edges()
